@@ -8,12 +8,12 @@ use crate::lab::{self, Backend, SealVia};
 use crate::report::Report;
 use crate::rng::{self, Mode, SplitMix64};
 use crate::sexp::{self, Sexp};
-use crate::tok::M;
+use crate::tok::{self, M};
 use crate::Ctx;
 use serde_json::{json, Value};
 use std::collections::HashSet;
 
-const OPS: [&str; 6] = ["local-nonce", "local-key", "secret-key", "pie", "pbkw", "pke"];
+const OPS: [&str; 7] = ["local-nonce", "local-key", "secret-key", "pie", "pbkw", "pke", "public-sign"];
 
 fn backend_num(b: &Backend) -> u32 {
     match b.name { "v1" => 1, "v2" => 2, "v3" => 3, "v3-aws-lc" => 30, "v4" => 4, _ => 5 }
@@ -21,6 +21,8 @@ fn backend_num(b: &Backend) -> u32 {
 
 struct Fixture {
     key: Vec<u8>,
+    /// a signing key of the backend
+    sign_sk: Vec<u8>,
     pk: Vec<u8>,
     params: Vec<u8>,
 }
@@ -33,6 +35,7 @@ fn run_one(b: &Backend, op: &str, fx: &Fixture) -> lab::R<String> {
         "secret-key" => (b.secret_random)().map(hex::encode),
         "pie" => (b.pie_wrap)("local", &fx.key, &fx.key),
         "pbkw" => (b.pw_wrap)("local", b"pw", Some(&fx.params), &fx.key),
+        "public-sign" => (b.public_sign)(&fx.sign_sk, b"claims", b"", b"", SealVia::Seal),
         _ => (b.pke_seal)(&fx.pk, &fx.key),
     }
 }
@@ -51,6 +54,8 @@ fn embedded(b: &Backend, op: &str, out: &str) -> Vec<Vec<u8>> {
             let d = paserk_bytes(out).unwrap_or_default();
             if d.len() < b.pw_prefix_len { vec![] } else { vec![d[..b.pw_param_off].to_vec(), d[b.pw_param_off + b.pw_param_len..b.pw_prefix_len].to_vec()] }
         }
+        // deterministic signature schemes legitimately repeat; nothing random is embedded in a readable field
+        "public-sign" => vec![],
         _ => {
             let d = paserk_bytes(out).unwrap_or_default();
             // ephemeral public key (v3: 49 bytes after the 48-byte tag; v2/v4: 32 after 32) or the RSA ciphertext (v1)
@@ -69,7 +74,7 @@ fn model_draws(m: &mut M, b: &Backend, opi: usize) -> Vec<usize> {
 
 pub fn run(ctx: &Ctx) {
     let mut rep = Report::new("C16", &ctx.tier, ctx.seed);
-    rep.rule = "operations: encrypt (V::nonce), LocalKey::random, SecretKey::random, wrap_pie, password_wrap, seal. getrandom-based backends: requested block sizes and order vs the model's table; a failure injected at every draw index of every operation (error, nothing produced, next operation normal) and at every global call index of mixed histories (result shape vs the model's run_history); embedded nonce / salt fields equal to the served bytes. All six backends: histories of operations with the real randomness, embedded nonces / salts / ephemeral keys / generated keys pairwise distinct; distinct = (backend, operation, draw index / history position)".into();
+    rep.rule = "operations: encrypt (V::nonce), LocalKey::random, SecretKey::random, wrap_pie, password_wrap, seal, sign. getrandom-based backends: requested block sizes and order vs the model's table; a failure injected at every draw index of every operation (error, nothing produced, next operation normal) and at every global call index of mixed histories (result shape vs the model's run_history); embedded nonce / salt fields equal to the served bytes. All six backends: histories of operations with the real randomness, embedded nonces / salts / ephemeral keys / generated keys pairwise distinct, also across 4 threads running concurrently; distinct = (backend, operation, draw index / history position)".into();
     let bs = lab::backends();
     let mut m = M::new(&ctx.model);
     let mut g = SplitMix64::new(ctx.seed ^ 0xC16);
@@ -77,7 +82,7 @@ pub fn run(ctx: &Ctx) {
     let _replay: Option<Value> = ctx.replay.as_ref().and_then(|p| std::fs::read_to_string(p).ok()).and_then(|s| serde_json::from_str(&s).ok());
     for b in &bs {
         let keys = keys_for(b, &mut g);
-        let fx = Fixture { key: g.bytes(32), pk: keys.recipients.first().map(|r| r.1.clone()).unwrap_or_default(), params: cheap_params(b, &mut g) };
+        let fx = Fixture { key: g.bytes(32), sign_sk: tok::keypairs(b, &mut g, 0).first().map(|k| k.sk.clone()).unwrap_or_default(), pk: keys.recipients.first().map(|r| r.1.clone()).unwrap_or_default(), params: cheap_params(b, &mut g) };
         if b.scripted_rng {
             for (opi, op) in OPS.iter().enumerate() {
                 if b.ver == "v1" && *op == "secret-key" {
@@ -104,7 +109,7 @@ pub fn run(ctx: &Ctx) {
                 };
                 // (3) the embedded random fields are the served bytes (v1/v2 local tokens: a keyed function of them, see C03)
                 let emb = embedded(b, op, &out);
-                let direct = !((b.ver == "v1" || b.ver == "v2") && *op == "local-nonce") && *op != "pke" && *op != "secret-key";
+                let direct = !((b.ver == "v1" || b.ver == "v2") && *op == "local-nonce") && *op != "pke" && *op != "secret-key" && *op != "public-sign";
                 if direct {
                     let cat: Vec<u8> = emb.concat();
                     if cat != served {
@@ -183,7 +188,7 @@ pub fn run(ctx: &Ctx) {
                 rng::set_mode(Mode::Os);
             }
             // histories of mixed operations with a failure at every global call index: shape vs the model
-            let hist: Vec<usize> = (0..(if thorough { 40 } else { 12 })).map(|_| g.below(6) as usize).filter(|o| !(b.ver == "v1" && *o == 2)).collect();
+            let hist: Vec<usize> = (0..(if thorough { 40 } else { 12 })).map(|_| g.below(7) as usize).filter(|o| !(b.ver == "v1" && *o == 2)).collect();
             let sizes: Vec<Vec<usize>> = hist.iter().map(|&o| model_draws(&mut m, b, o)).collect();
             let total: usize = sizes.iter().map(|s| s.len()).sum();
             for fail in (0..total).map(Some).chain(std::iter::once(None)) {
@@ -226,6 +231,48 @@ pub fn run(ctx: &Ctx) {
                     }
                 }
             }
+        }
+        // the same across threads: a per-thread generator (thread-local counter or state) whose threads all start from
+        // the same point gives every thread the same sequence — invisible in any single-thread history
+        {
+            let per = if thorough { 2000 } else { 150 };
+            let ops: Vec<&str> = if b.ver == "v1" { vec!["local-nonce", "local-key", "pie"] } else { vec!["local-nonce", "local-key", "secret-key", "pie", "pke"] };
+            let results: Vec<Vec<(String, Vec<u8>)>> = std::thread::scope(|sc| {
+                let hs: Vec<_> = (0..4)
+                    .map(|_| {
+                        let (ops, fx) = (&ops, &fx);
+                        sc.spawn(move || {
+                            let mut v = vec![];
+                            for i in 0..per {
+                                let op = ops[i % ops.len()];
+                                if let Ok(out) = run_one(b, op, fx) {
+                                    for e in embedded(b, op, &out) {
+                                        if !e.is_empty() {
+                                            v.push((op.to_string(), e));
+                                        }
+                                    }
+                                }
+                            }
+                            v
+                        })
+                    })
+                    .collect();
+                hs.into_iter().map(|h| h.join().unwrap_or_default()).collect()
+            });
+            let mut cross = 0u64;
+            for (t, v) in results.iter().enumerate() {
+                for (op, e) in v {
+                    rep.evaluations += 1;
+                    if !seen.insert(e.clone()) {
+                        cross += 1;
+                        if cross <= 3 {
+                            rep.violation(&format!("c16.{}.{op}.repeat-across-threads", b.name), format!("{} {op}: the random field {} drawn on thread {t} had already occurred (on another thread or earlier) — 4 threads x {per} operations", b.name, hex::encode(e)), json!({"backend": b.name, "op": op, "what": "repeat across threads"}));
+                        }
+                    }
+                }
+            }
+            rep.count_n(&format!("{}.repeats-across-threads", b.name), cross);
+            rep.nontrivial(format!("{}|distinct-threads", b.name));
         }
         rep.count_n(&format!("{}.distinct-random-fields", b.name), seen.len() as u64);
         rep.count_n(&format!("{}.repeats", b.name), repeats);
